@@ -105,6 +105,14 @@ where
         log_push(&l2, "xcloseret", 0, 0, json!({"r": r, "pending": m2.pending_items_count()}));
     });
     tokio::time::sleep(if multi_rt { Duration::from_millis(300) } else { Duration::from_secs(10) }).await;
+    // optionally the listeners finish one after the other, in the given order, well apart from each other
+    for ex in nums(&c["release_order"]) {
+        for v in old_events.iter().chain(events.iter()) {
+            gates[&(v * 10 + ex)].add_permits(1);
+            tokio::time::sleep(t).await;
+        }
+        tokio::time::sleep(if multi_rt { Duration::from_millis(100) } else { Duration::from_secs(2) }).await;
+    }
     for v in old_events.iter().chain(events.iter()) {
         for ex in 0..8u64 {
             gates[&(v * 10 + ex)].add_permits(1);
